@@ -3,9 +3,11 @@ package main
 import (
 	"bytes"
 	stdgzip "compress/gzip"
+	"context"
 	"fmt"
 	"strings"
 
+	"github.com/Allenxuxu/ringbuffer"
 	protocol "github.com/longportapp/openapi-protocol/go"
 )
 
@@ -301,6 +303,38 @@ func genC02(e *emitter, tier string, seed uint64) map[string]interface{} {
 				rest3 := total - fixed3
 				p3.pairs = [][2]item{{item{data: lastK}, item{data: lastV}}, {item{data: []byte("a")}, item{rep: true, b: 'A', n: rest3 - rest3/2}}, {item{data: []byte("m")}, item{rep: true, b: 'M', n: rest3 / 2}}}
 				overBudgetCase(e, p3, total)
+			}
+		}
+	}
+	// gzip-flagged spec frames whose CONTENT is as large as a body can be, and larger (the layout limits the body SECTION — the compressed
+	// bytes — to 2^24-1; what they inflate to is not limited by it): the decoders must hand out the whole content. Evaluated on the code
+	// only (the byte-list model is not asked for 16 MiB contents); both decoders, both versions
+	for _, version := range []int{1, 2} {
+		for _, n := range []int{1<<24 - 1, 1 << 24, 1<<24 + 4099} {
+			content := bytes.Repeat([]byte{byte(n % 251), byte(version)}, (n+1)/2)[:n]
+			f := specFrame{typ: 3, verify: 0, gzip: 1, cmd: 7, body: stdCompress(content)}
+			frame := specEncode(version, f)
+			idx := e.op(fmt.Sprintf("gz.note large-content v=%d n=%d", version, n), "ok", "decoder/large-content", true)
+			ctx := protocol.NewContext(context.Background(), protocol.ClientSide)
+			ctx.Handshake(&protocol.Handshake{Version: uint8(version), Codec: protocol.CodecProtobuf, Platform: protocol.PlatformOpenapi})
+			pr, _ := protocol.GetProtocol(uint8(version))
+			if pk, err := pr.UnpackBytes(ctx, frame); err != nil || pk == nil || !bytes.Equal(pk.Body, content) {
+				l := -1
+				if pk != nil {
+					l = len(pk.Body)
+				}
+				e.fail(idx, fmt.Sprintf("decode_accepts:v%d", version), fmt.Sprintf("spec frame flagged gzip whose body section (%d bytes) inflates to %d bytes: UnpackBytes err=%v, body has %d bytes (the layout assigns all %d)", len(f.body), n, err, l, n))
+			}
+			rb := ringbuffer.New(len(frame) + 64)
+			_, _ = rb.Write(frame)
+			ctx2 := protocol.NewContext(context.Background(), protocol.ClientSide)
+			ctx2.Handshake(&protocol.Handshake{Version: uint8(version), Codec: protocol.CodecProtobuf, Platform: protocol.PlatformOpenapi})
+			if pk, done, err := pr.Unpack(ctx2, rb); err != nil || !done || pk == nil || !bytes.Equal(pk.Body, content) {
+				l := -1
+				if pk != nil {
+					l = len(pk.Body)
+				}
+				e.fail(idx, fmt.Sprintf("decode_accepts_stream:v%d", version), fmt.Sprintf("spec frame flagged gzip whose body section (%d bytes) inflates to %d bytes: Unpack done=%v err=%v, body has %d bytes (the layout assigns all %d)", len(f.body), n, done, err, l, n))
 			}
 		}
 	}
